@@ -7,12 +7,26 @@ import sys, os, random, subprocess, tempfile, shutil, re, json
 sys.path.insert(0, os.path.join(os.path.dirname(os.path.dirname(os.path.abspath(__file__))), "lib"))
 import core, engines
 tier = sys.argv[1] if len(sys.argv) > 1 and sys.argv[1] in ("quick", "thorough") else "quick"
-names = [a for a in sys.argv[1:] if a not in ("quick", "thorough")] or sorted(engines.ENGINES)
+names = [a for a in sys.argv[1:] if a not in ("quick", "thorough") and not a.startswith("--prop=")] or sorted(engines.ENGINES)
+# --prop=Cnn: measure exactly the traces that property's check runs (its engines, modes, stratified sampling caps)
+prop = next((a.split("=", 1)[1] for a in sys.argv[1:] if a.startswith("--prop=")), None)
+plan = [(e, "default", None) for e in names]
+if prop:
+    import props, importlib.machinery, importlib.util
+    loader = importlib.machinery.SourceFileLoader("chk", os.path.join(core.VERIF, "check")); spec_ = importlib.util.spec_from_loader("chk", loader)
+    chk = importlib.util.module_from_spec(spec_); av = sys.argv; sys.argv = ["check"]
+    try: loader.exec_module(chk)
+    except SystemExit: pass
+    sys.argv = av
+    plan = [(ent[0], ent[1], ent[2] if len(ent) > 2 else None) for ent in props.PROPS[prop]["engines"] if not ent[1].startswith("pool-")]
 total = {}
-for e in names:
+entered_all = set(); funcs_all = set()
+rng0 = random.Random(1)
+for e, mode, cap in plan:
     w = tempfile.mkdtemp(prefix="cccov.")
     try:
-        tr = engines.generate(e, random.Random(1), tier, "default")
+        tr = engines.generate(e, rng0 if prop else random.Random(1), tier, mode)
+        if prop and cap and len(tr) > cap * (8 if tier != "quick" else 1): tr = chk.stratified(tr, cap * (8 if tier != "quick" else 1), rng0)
         src = os.path.join(core.VERIF, "harness", e + ".c")
         cmd = ["gcc", "-O0", "-g", "--coverage", "-DVF_COVERAGE", "-w", "-I" + os.path.join(core.VERIF, "harness"),
                "-I" + os.path.join(core.REPO, "src", "include"), "-I" + os.path.join(core.REPO, "src"),
@@ -24,7 +38,7 @@ for e in names:
             text = "".join("\n".join(ls) + "\n" for _, ls in part)
             subprocess.run([os.path.join(w, "h")], input=text, capture_output=True, text=True, cwd=w)
         g = subprocess.run(["gcov", "-b", "-f", "-o", w, os.path.join(w, "h-" + e + ".gcno")], capture_output=True, text=True, cwd=w).stdout
-        print("== %s (%s tier, %d traces)" % (e, tier, len(tr)))
+        print("== %s%s (%s tier, %d traces)" % (e, " mode=" + mode if prop else "", tier, len(tr)))
         cur = None; never = {}; skipped = set(); fun_file = {}
         for m in re.finditer(r"(Function|File) '([^']+)'\nLines executed:([\d.]+)% of (\d+)(?:\nBranches executed:([\d.]+)% of (\d+)\nTaken at least once:([\d.]+)% of (\d+))?", g):
             kind, name, lp, ln = m.group(1), m.group(2), float(m.group(3)), int(m.group(4))
@@ -33,6 +47,10 @@ for e in names:
                 if lp == 0.0: skipped.add(f); continue        # a file this engine's harness includes but does not drive (pool backing)
                 print("   %-28s lines %5.1f%% of %4d   branches taken %5s%% of %s" % (f, lp, ln, m.group(7) or "-", m.group(8) or "-"))
                 total[f] = max(total.get(f, (0, 0)), (lp, ln))
+            if kind == "Function":
+                funcs_all.add(name)
+                if lp > 0.0: entered_all.add(name)
+            if kind == "File": pass
             elif kind == "Function" and name.startswith("cc_") or (kind == "Function" and lp == 0.0 and not name.startswith(("vf_", "main", "do_", "run_", "h_", "obs", "print", "cmp", "pred", "enc", "dec", "visit", "red", "cp"))):
                 if lp == 0.0: never[name] = ln
         never = {k: v for k, v in never.items() if not k.startswith(("cc_dynamic_pool", "cc_static_pool")) or e in ("dpool", "spool")}
@@ -44,3 +62,7 @@ for e in names:
                     if miss and len(miss) < 80: print("   not executed in %s: %s" % (gf[:-5], " ".join(m[1].strip() for m in miss)))
     finally:
         shutil.rmtree(w, ignore_errors=True)
+
+if prop:
+    miss = sorted(f for f in funcs_all - entered_all if f.startswith("cc_") and not f.endswith(("struct_size", "get_buffer")))
+    print("## %s: library functions entered by none of its engine runs: %s" % (prop, ", ".join(miss) or "-"))
